@@ -537,6 +537,61 @@ def rule_init(m):
     return res
 
 
+def rule_defaults(m):
+    """D-DEFAULT: sibling agreement of boolean default arguments."""
+    res = RuleResult('D-DEFAULT', 'a boolean parameter of the same name has the same default value in every public declaration '
+                                  'of the library that gives it one (force = false, throwIfInexistent = true, countSelfLoopsTwice = '
+                                  'true are not frozen here: the majority of the sibling declarations is the reference), so that a '
+                                  'call that omits the flag means the same thing on every class and overload')
+    groups = {}
+    seen = set()
+    by_loc = {}
+    for f in m.fns:
+        by_loc.setdefault((f.tname, f.loc[1]), f)
+    for u in m.p.units:
+        if u.std != m.std:
+            continue
+        for pf in u.patternfns:
+            d = pf.get('defaults') or []
+            if not any(x in ('true', 'false') for x in d) or pf.get('access') not in ('public', None, 'none'):
+                continue
+            k = (pf['tname'], pf['loc'][1], u.file_of(pf['loc']))
+            if k in seen:
+                continue
+            seen.add(k)
+            f = by_loc.get((pf['tname'], pf['loc'][1]))
+            names = f.pnames if f is not None and len(f.pnames) == len(d) else [None] * len(d)
+            for ix, dv in enumerate(d):
+                if dv in ('true', 'false') and names[ix]:
+                    groups.setdefault(names[ix], []).append((short(pf['tname']), dv, '%s:%d' % (u.file_of(pf['loc']), pf['loc'][1])))
+    for name, members in sorted(groups.items()):
+        vals = [v for _, v, _ in members]
+        for fn, v, loc in members:
+            res.sites += 1
+        if len(set(vals)) == 1:
+            for fn, v, loc in members:
+                res.ok(dict(parameter=name, default=v, declarations=len(members)) if len(res.samples) < 6 and fn == members[0][0] else None)
+            continue
+        maj = max(set(vals), key=vals.count)
+        if vals.count(maj) * 2 <= len(vals) or len(members) < 3:
+            for fn, v, loc in members:
+                res.ok(None)
+            res.broken('D-DEFAULT: the declarations of `%s` disagree on its default (%s) and there is no majority to take as the '
+                       'reference' % (name, ', '.join('%s=%s' % (fn, v) for fn, v, _ in members)))
+            continue
+        for fn, v, loc in members:
+            if v == maj:
+                res.ok(None)
+            else:
+                res.fail(Finding('D-DEFAULT', fn, 'default of ' + name, loc,
+                                 '`%s` defaults to %s in %s but to %s in the other %d declarations that have this parameter: a call '
+                                 'that omits it behaves differently here (e.g. force=true inserts a parallel edge for an existing pair; '
+                                 'throwIfInexistent=false returns a default label for a missing edge instead of throwing)'
+                                 % (name, v, fn, maj, vals.count(maj))))
+    res.require_sites(8, 'boolean default arguments')
+    return res
+
+
 def _dead_helper(m, p):
     tn = p['tname']
     if tn.startswith((NS + 'io::', NS + 'algorithms::')) or p.get('record'):
